@@ -217,7 +217,8 @@ def standalone_rules(repo, rep, beta):
     ref = orc.call('tm_inverse', east=Rat.sym('east'), north=Rat.sym('north'), hemisphere=Str('south'), cm=cm, A=Rat.sym('A'),
                    b=Tup([bsyms['b%d' % (2 * r)] for r in range(1, 9)]), k0=proj_items[4], FE=proj_items[2], FN=proj_items[3])
     rxi1, reta1, rconf, rlon, rsign, rt1 = ref.items
-    check_equal(rep, 'R-SIBLING', base + 'grid2geo::lon', where(f, f.node), val.items[1], rlon,
+    from ..symcheck import strip_turn_folds
+    check_equal(rep, 'R-SIBLING', base + 'grid2geo::lon', where(f, f.node), strip_turn_folds(val.items[1]), rlon,
                 'stand-alone longitude = cm + atan(sinh eta\'/cos xi\') with eta\', xi\' from the b_2k series (each b_2k paired with 2k)')
     # latitude: three explicit Newton steps on the same residual
     lat = val.items[0]
@@ -591,6 +592,7 @@ def run(repo, rep):
     # geographic -> grid -> geographic goes through the automatic zone of geo2grid: zone / central meridian on the lattice
     common.zone_table_rule(repo, rep)
     common.longitude_range_rule(repo, rep)
+    common.standalone_longitude_rule(repo, rep)
     if ctx is not None:
         cm_sibling_rule(repo, rep, ctx)
     tr = ThreadRule(repo, _Filter(rep, lambda key: 'psfandgridconv' not in key))
